@@ -24,6 +24,27 @@ CLAIMED = {
  "C15": ("exploration", "e2e", "property-based end-to-end boundary testing around both size limits with Content-Length and chunked framing",
          "Body lengths at and around 100 KiB and (for the two exempt uploads in any letter case) 100 MiB, declared or chunked; over the limit: 4xx and zero bytes at the mock; at or under: relayed intact.",
          "Trusts limit_ref derived from the statement; the 100 MiB class is sampled thinly in the quick tier (about 1% of cases).", "4 C15"),
+ "C07": ("exploration", "e2e", "property-based stateful (history) testing against a model of single-use records; lookup/remove trace of the stand-in audit map",
+         "Generated histories of Open (fresh or reused source port, with or without record) / Request / Overwrite / Close / concurrent Batch over 5 identities whose IMDS rules make every decision reveal whose claims were used; model port -> pending record; trace must show lookup then remove at accept.",
+         "Trusts that SO_LINGER 0 + explicit bind reproduces source-port reuse; the stand-in audit map's trace.", "4 C07"),
+ "C09": ("exploration", "keeper", "property-based stateful testing of the real KeyKeeper against a reference secure-channel host; snapshots at poll boundaries compared with a function of the latest document",
+         "Histories of status documents (1.0/2.0, flips, rule replacement/removal, rotation) and per-step host failures served to the real KeyKeeper (5 ms polls); after every stable step the public getters and the redirect-policy trace must equal the reference interpretation of the latest document; failed status polls change nothing.",
+         "Trusts the reference host (DESIGN.md A.3) and the feature-guarded redirect-policy trace; 'enabled without authorizationRules' is counted as under-specified.", "4 C09"),
+ "C10": ("exploration", "keeper", "schedule exploration with an owned-schedule executor (hand-polled futures on a current-thread runtime) + verification of every emitted MAC at the mock host",
+         "Interleavings of the four signing call sites with update_key / clear_key generated as schedule vectors; every signed request the host receives must verify under the key registered for the key id it announces.",
+         "Only interleavings expressible as polls of operation futures and actor drains on one thread; multi-core effects are not modelled (the shared state is message passing).", "4 C10"),
+ "C11": ("exploration", "e2e", "property-based history testing: reference multiset of denials vs the published failed-authorization summary (getter and status.json)",
+         "Generated request histories (repeats, concurrent batches) against rule sets in each mode; per request enforce -> 403 and zero bytes, audit -> relayed like an allowed request, disabled -> relayed; afterwards the summary and the status.json of a real status task equal the reference multiset exactly.",
+         "Trusts the reference RBAC model; rule sets with unique names and URLs without duplicate keys (fully specified decisions).", "4 C11"),
+ "C12": ("exploration", "keeper", "property-based history testing with a taint search of every sink for every key the host ever delivered",
+         "Run histories (latch, rotation, malformed key responses, status failures, restarts) with production logging, event logger and status task, interleaved with client traffic incl. /provision; every log/event/status/rule-dump/console/stdout byte and every byte returned to a client is searched for each delivered key in six encodings; key directory mode/owner checked.",
+         "Absence is only shown on explored histories; kernel logs are out of reach; one known finding (Error::Hex echo into the agent log and stdout) is tolerated by exact signature.", "4 C12"),
+ "C13": ("exploration", "pure+e2e+keeper", "property-based testing and generated hostile inputs with a process-wide panic hook as oracle: direct calls, hostile requests/callers through the listener, hostile host replies through the host clients and the key keeper",
+         "Three engines: (A) the truncation and canonicalisation functions with multi-byte characters placed at every in-character position around bytes 1024/4096 and obs-text header bytes; (B) RFC-valid but hostile requests and freshly exec'ed callers with long multi-byte names/command lines through the real listener, canary request and status publication afterwards; (C) mutated/mis-encoded/odd-length host replies to every host call. Any recorded panic is a violation; every valid request must get a response.",
+         "hyper's own limits bound what reaches the handlers; liveness is bounded (canary, status.json timestamp).", "4 C13"),
+ "C16": ("exploration", "keeper", "schedule exploration with the owned-schedule executor; exact reference model on sequential histories, possibility sets on interleaved ones; inode/content watcher for status.tag",
+         "Readiness reports, resets, deadline, channel-state updates and queries (direct and GET /provision with ancient/current/far-future ticks) either sequentially (exact oracle: flags + finished tick model) or under generated schedules (possibility sets from which operations had definitely/possibly happened); a watcher thread checks that one inode of status.tag never shows two contents and every content is a complete message.",
+         "Interleavings expressible by the executor only; the provision files live in the configured key directory of the worker's private tmpfs.", "4 C16"),
  "C20": ("exploration", "pure", "exhaustive enumeration of all observation sequences to length 22 + property-based generation of long runs, against a reference automaton and trace predicates",
          "All 2^22 success/failure sequences (every shorter one is a prefix; predicates checked per step) plus generated sequences crossing the 20-failure threshold and the counters' saturation point, and generated notification histories, against a reference automaton, the statement's trace predicates and a reference rate limiter.",
          "Trusts: StatusState::update_state and ServiceState::update_service_state_entry are the only deciders of the reported health / notifications (how service_main uses them is not covered).", "4 C20"),
@@ -63,6 +84,7 @@ m = {
  },
  "engines": [
    {"name": "e2e", "path": "harness/src/bin/e2e.rs", "serves_properties": ["C01", "C03", "C04", "C05", "C07", "C11", "C13", "C14", "C15"], "kind_free_text": "real ProxyServer in a private network+mount namespace, mock metadata hosts on the real addresses, raw HTTP client with stand-in attribution records; proptest-generated cases"},
+   {"name": "keeper", "path": "harness/src/bin/keeper.rs", "serves_properties": ["C09", "C10", "C12", "C13", "C16"], "kind_free_text": "real KeyKeeper / shared-state actors against a reference secure-channel host in a private namespace; owned-schedule executor for schedule properties"},
    {"name": "pure", "path": "harness/src/bin/pure.rs", "serves_properties": ["C02", "C03", "C04", "C19", "C20"], "kind_free_text": "in-process proptest runners over the agent's public functions with independent reference models"},
  ],
  "checks": checks,
